@@ -26,6 +26,7 @@ func run(c *mon.Ctx) {
 	c.Floor("rejected.table_id", 100)
 	c.Floor("rejected.identifier", 100)
 	c.Floor("decode_again_after_edit", 2000)
+	c.Floor("decode_after_descriptor_cut_short", 500)
 	c.Floor("sections.command_length_not_given", 5000)
 	c.Floor("sections.pointer_field_over_other_bytes", 2000)
 	c.Stream("sections", c.N(60000, 60000000), func(i int, r *gen.Rand) {
@@ -92,6 +93,19 @@ func run(c *mon.Ctx) {
 			scte35.NewSCTE35(in[:r.Intn(len(in))])
 			scte35.NewSCTE35(nil)
 			c.Count("decode_after_failed_decode")
+		}
+		if i%8 == 5 {
+			// ... also after a section that is consistent on the outside but whose segmentation descriptor is cut
+			// short inside (the descriptor parser itself runs out of bytes)
+			t := ref.GenSig(r, false)
+			for j := range t.Descs {
+				if enc := t.Descs[j].Enc(); !t.Descs[j].Foreign && len(enc) > 8 && r.Bool() {
+					t.Descs[j] = ref.SegDesc{Foreign: true, Tag: 0x02, Body: append([]byte{}, enc[2:6+r.Intn(len(enc)-6)]...)}
+				}
+			}
+			if _, err := scte35.NewSCTE35(t.Payload()); err != nil {
+				c.Count("decode_after_descriptor_cut_short")
+			}
 		}
 		x, err := scte35.NewSCTE35(in)
 		c.Eval(1)
